@@ -7,7 +7,7 @@ namespace ElfioVerif.Drv.Load
 open ElfioVerif ElfioVerif.Drv
 
 def fnv (bs : Bytes) : Nat :=
-  bs.foldl (fun h b => ((h ^^^ b.toNat) * 1099511628211) % 18446744073709551616) 1469598103934665603
+  (bs.foldl (fun (h : UInt64) b => (h ^^^ b.toUInt64) * 1099511628211) 1469598103934665603).toNat
 
 def dataStr (d : Option Bytes) (n : Nat) : String :=
   match d with
@@ -64,6 +64,18 @@ def secSetField (c : Cls) (b : SecBuf) (f : String) (v : Nat) : SecBuf :=
 structure DObj where
   o : Obj
   saved : Bytes := []
+
+def saveLine (r : SaveRes) (sum : Bool) (file : Bool := false) : String :=
+  -- `file=1`: file-name overload onto a file limited to `budget` bytes — only the result is compared
+  if file then s!"save={r.ok} bytes=-" else
+  if sum then s!"save={r.ok} len={r.os.content.length} fnv={fnv r.os.content}"
+  else s!"save={r.ok} bytes={hexOfBytes r.os.content}"
+
+/-- ops after which an object is no longer "as built" (they run the layout or replace the object) -/
+def isSaveOp (t : List String) : Bool :=
+  match t with
+  | op :: _ => op == "save" || op == "savefile" || op == "reload" || op == "savefresh"
+  | [] => false
 
 def wstep (d : DObj) (t : List String) : Option (M (DObj × String)) :=
   let o := d.o
@@ -146,8 +158,22 @@ def wstep (d : DObj) (t : List String) : Option (M (DObj × String)) :=
   | "save" :: rest => some do
     let os : OStream := { budget := (kv? rest "budget").map parseNat }
     let r ← save o os
-    pure ({ o := r.obj, saved := r.os.content }, s!"save={r.ok} bytes={hexOfBytes r.os.content}")
-  | ["forceoverlap", i, j] =>
+    pure ({ o := r.obj, saved := if kvn rest "file" 0 == 1 then [] else r.os.content },
+          saveLine r (kv? rest "out" == some "sum") (kvn rest "file" 0 == 1))
+  | "savefile" :: rest =>
+    -- `save(const std::string&)`: opening the file is std::filebuf's business (not modelled): by rule an
+    -- unopenable path gives false without touching the object, a full device gives false after the
+    -- layout ran, a writable path behaves like an unlimited stream
+    match kv? rest "kind" with
+    | some "ok" => some do
+      let r ← save o {}
+      pure ({ o := r.obj, saved := r.os.content }, saveLine r (kv? rest "out" == some "sum"))
+    | some "full" => some do
+      let r ← save o {}
+      pure ({ d with o := r.obj }, "save=false bytes=-")
+    | _ => some (pure (d, "save=false bytes=-"))
+  | "forceoverlap" :: i :: j :: rest =>
+    let delta := match rest with | [x] => parseNat x | _ => 0
     let b := d.saved
     if b.length < 64 then some (pure (d, "bad-op")) else
     let c : Cls := if (b.getD 4 0).toNat == 2 then .c64 else .c32
@@ -159,7 +185,7 @@ def wstep (d : DObj) (t : List String) : Option (M (DObj × String)) :=
     let w := match c with | .c64 => 8 | .c32 => 4
     if i ≥ shnum || j ≥ shnum || shoff + (max i j + 1) * shent > b.length then some (pure (d, "bad-op")) else
     let oi := decodeInt e (slice b (shoff + i * shent + fo) w)
-    some (pure ({ d with saved := wr b (shoff + j * shent + fo) (encodeInt e w oi) }, "ok"))
+    some (pure ({ d with saved := wr b (shoff + j * shent + fo) (encodeInt e w (oi + delta)) }, "ok"))
   | ["skew", j, dl] =>
     let b := d.saved
     if b.length < 64 then some (pure (d, "bad-op")) else
@@ -238,22 +264,49 @@ def runCase (ops : List (List String)) : List String :=
   -- a default-constructed elfio: create(ELFCLASS32, ELFDATA2LSB)
   let o0 : Obj := match create {} .c32 .lsb with | .ok o => o | .error _ => {}
   let d0 : DObj := { o := o0 }
-  let rec go (objs : List DObj) (cur : Nat) (ops : List (List String)) (acc : List String) : List String :=
+  -- `fresh`: the objects as they would be had no save/savefile/reload been executed (what the
+  -- harness rebuilds for `savefresh`); `none` while identical to `objs`
+  let rec go (objs : List DObj) (fresh : Option (List DObj)) (flen : Option Nat) (cur : Nat) (ops : List (List String)) (acc : List String) : List String :=
     match ops with
     | [] => acc.reverse
     | ["obj", k] :: rest =>
       let k := parseNat k
-      let objs := if objs.length ≤ k then objs ++ List.replicate (k + 1 - objs.length) d0 else objs
-      go objs k rest ("ok" :: acc)
+      let ext (l : List DObj) := if l.length ≤ k then l ++ List.replicate (k + 1 - l.length) d0 else l
+      go (ext objs) (fresh.map ext) none k rest ("ok" :: acc)
+    | ("savefresh" :: args) :: rest =>
+      let d := (fresh.getD objs).getD cur d0
+      -- `rel=r`: budget = length of the complete file + r (r may be negative); the length is cached in `flen`
+      let budget : M (Option Nat × Option Nat) := match kv? args "rel" with
+        | some r => do
+          let len ← match flen with
+            | some n => pure n
+            | none => do let r0 ← save d.o {}; pure r0.os.content.length
+          let ri : Int := if r.startsWith "-" then - Int.ofNat (parseNat (r.drop 1).toString) else Int.ofNat (parseNat r)
+          pure (some (Int.ofNat len + ri).toNat, some len)
+        | none => pure ((kv? args "budget").map parseNat, flen)
+      match budget >>= fun (b, fl) => (save d.o { budget := b }).map fun r => (r, fl) with
+      | .ok (r, fl) => go objs fresh fl cur rest (saveLine r (kv? args "out" == some "sum") (kvn args "file" 0 == 1) :: acc)
+      | .error f => (f.render :: acc).reverse
     | t :: rest =>
       let d := objs.getD cur d0
+      let fresh' : Option (List DObj) :=
+        if isSaveOp t then some (fresh.getD objs)
+        else match fresh with
+          | none => none
+          | some fl =>
+            let fd := fl.getD cur d0
+            match wstep fd t with
+            | some (.ok (fd', _)) => some (fl.set cur fd')
+            | some (.error _) => some fl
+            | none => some (fl.set cur { fd with o := (step fd.o t).1 })
+      let flen' := if isSaveOp t then flen else none
       match wstep d t with
-      | some (.ok (d', out)) => go (objs.set cur d') cur rest (out :: acc)
+      | some (.ok (d', out)) => go (objs.set cur d') fresh' flen' cur rest (out :: acc)
       | some (.error f) => (f.render :: acc).reverse
       | none =>
         let (o', out) := step d.o t
         if out.startsWith "FAULT" then (out :: acc).reverse
-        else go (objs.set cur { d with o := o' }) cur rest (out :: acc)
-  go [d0] 0 ops []
+        else go (objs.set cur { d with o := o' }) fresh' flen' cur rest (out :: acc)
+  go [d0] none none 0 ops []
 
 end ElfioVerif.Drv.Load
